@@ -70,6 +70,12 @@ func exec(op Op) string {
 		s, v := ref.FromJ(*op.Vals)
 		out, err := gen.ByID(s.ID()).Fill(v).IEncode()
 		return digest(out, []byte(fmt.Sprint(err)))
+	case "encodebad":
+		// a value that does not fit its slot: the encoder fails and must leave no trace for anybody else
+		s, v := ref.FromJ(*op.Vals)
+		v.F[op.Text] = []byte("this value is much too long for any fixed-width slot of any protocol ....")
+		out, err := gen.ByID(s.ID()).Fill(v).IEncode()
+		return digest(out, []byte(fmt.Sprint(err != nil)))
 	case "decode":
 		s, v := ref.FromJ(*op.Vals)
 		b := gen.ByID(s.ID())
@@ -211,10 +217,23 @@ var texts = []string{"hello world", "1234567@abcdefgh", "ä¸­æ–‡çŸ­ä¿¡å†…å®¹æµ‹è¯
 	"a long ascii text that needs more than one part 0123456789012345678901234567890123456789012345678901234567890123456789012345678901234567890123456789012345678901234567890123456789",
 	"é•¿çŸ­ä¿¡é•¿çŸ­ä¿¡é•¿çŸ­ä¿¡é•¿çŸ­ä¿¡é•¿çŸ­ä¿¡é•¿çŸ­ä¿¡é•¿çŸ­ä¿¡é•¿çŸ­ä¿¡é•¿çŸ­ä¿¡é•¿çŸ­ä¿¡é•¿çŸ­ä¿¡é•¿çŸ­ä¿¡é•¿çŸ­ä¿¡é•¿çŸ­ä¿¡é•¿çŸ­ä¿¡é•¿çŸ­ä¿¡é•¿çŸ­ä¿¡é•¿çŸ­ä¿¡é•¿çŸ­ä¿¡é•¿çŸ­ä¿¡é•¿çŸ­ä¿¡é•¿çŸ­ä¿¡é•¿çŸ­ä¿¡é•¿çŸ­ä¿¡é•¿çŸ­ä¿¡é•¿çŸ­ä¿¡"}
 
+// PDU types with a fixed-width text slot (an over-long value makes their encoder fail)
+var fixedSlotTypes = []string{"cmpp20.PduSubmit", "cmpp20.PduDeliver", "cmpp20.PduConnect", "cmpp30.Submit", "cmpp30.Deliver", "sgip12.Submit", "sgip12.Bind", "smgp30.Submit", "smgp30.Login", "smgp30.Deliver", "cmpp20.PduQuery"}
+
 var opGen = rapid.Custom(func(t *rapid.T) Op {
-	k := rapid.SampledFrom([]string{"encode", "encode", "decode", "decode", "string", "string", "split", "batch", "content", "gsm7", "msgid", "ucs2", "period"}).Draw(t, "k")
+	k := rapid.SampledFrom([]string{"encode", "encode", "encodebad", "decode", "decode", "string", "string", "split", "batch", "content", "gsm7", "msgid", "ucs2", "period"}).Draw(t, "k")
 	op := Op{K: k, U: rapid.Uint64().Draw(t, "u"), Yield: rapid.IntRange(0, 3).Draw(t, "yield") == 0}
 	switch k {
+	case "encodebad":
+		b := gen.ByID(rapid.SampledFrom(fixedSlotTypes).Draw(t, "badtype"))
+		j := ref.ToJ(b.Spec, gen.DrawVals(t, b, gen.Opts{NoTails: true}))
+		op.Vals = &j
+		for _, f := range b.Spec.Fields {
+			if f.Kind == ref.FixStr {
+				op.Text = f.Name // the field that will not fit
+				break
+			}
+		}
 	case "encode", "decode", "string":
 		b := gen.DrawBinding(t, false)
 		j := ref.ToJ(b.Spec, gen.DrawVals(t, b, gen.Opts{MaxTriplets: 1})) // one parameter at most: output independent of map order
